@@ -555,8 +555,15 @@ def comp_model(v):
         return ('URI', v.uri)
     if t == 'STRING':
         return ('STRING', v.value)
-    if t in ('FUNCTION', 'CALC', 'COLOR_VALUE', 'VARIABLE') and isinstance(getattr(v, 'value', None), str):
-        return (t, ' '.join(v.value.split()))
+    if t in ('FUNCTION', 'CALC', 'COLOR_VALUE', 'VARIABLE') and len(v.seq) and v.seq[0].type == 'FUNCTION':
+        # structurally: the name, then the arguments and operators (white space and comments are layout)
+        items = []
+        for i in v.seq:
+            val = i.value
+            if i.type == 'S' or val.__class__.__name__ == 'CSSComment':
+                continue
+            items.append(comp_model(val) if hasattr(val, 'cssText') and hasattr(val, 'type') else val)
+        return (t, tuple(items))
     if t in ('NUMBER', 'DIMENSION', 'PERCENTAGE'):
         # numbers are compared by value to 6 decimal places (the documented limit); a zero length may lose its unit
         num = round(v.value, 6)
